@@ -679,7 +679,12 @@ impl MqttState {
     /// Packet ids are incremented till maximum set inflight messages and reset to 1 after that.
     ///
     fn next_pkid(&mut self) -> u16 {
-        let next_pkid = self.last_pkid + 1;
+        // the limit may have been lowered (receive maximum of a later CONNACK) below the last id handed out
+        let next_pkid = if self.last_pkid >= self.max_outgoing_inflight {
+            1
+        } else {
+            self.last_pkid + 1
+        };
 
         // When next packet id is at the edge of inflight queue,
         // set await flag. This instructs eventloop to stop
